@@ -229,6 +229,26 @@ def gen_pair(rng, row=None):
             trusted_type_flip = True
     new = signed_root(v2, K2, t2, signer_keys, rng, bad_signers=bad, junk=rng.choice([0, 0, 1, 3]), md_type=new_type,
                       unauthorized=unauth, respelled_copies=signer_keys if rng.random() < 0.35 else ())
+    if rng.random() < 0.3 and isinstance(trusted.get("signed"), dict) and isinstance(new.get("signed"), dict):
+        # decoy delegations whose names resemble "root" (other roles as far as the rule is concerned), delegating to a key
+        # the attacker holds; its valid signature is on the offer
+        att = next((k for k in U if k.hex not in {x.hex for x in K + K2}), None)
+        if att is not None:
+            name = rng.choice(["root.json", "Root", "root ", " root", "ROOT", "root\x00", "roots", "r\u043eot", "root.json", "1.root", ""])
+            where = rng.choice(["trusted", "new", "both"])
+            if where in ("trusted", "both") and isinstance(trusted["signed"].get("delegations"), dict):
+                trusted["signed"]["delegations"][name] = gmd.delegation([att], 1)
+            if where in ("new", "both") and isinstance(new["signed"].get("delegations"), dict):
+                # changing the offered payload invalidates its signatures: re-sign with the same signer set
+                md = copy.deepcopy(new["signed"])
+                md["delegations"][name] = gmd.delegation([att], 1)
+                if set(new["signatures"]) >= {k.hex for k in signer_keys} and "new_malformed" not in fails and "no_root_delegation" not in fails:
+                    data = canonjson.canon(md)
+                    new = gmd.envelope(md, {k: v for k, v in new["signatures"].items() if k not in {x.hex for x in signer_keys}})
+                    for k in signer_keys:
+                        new["signatures"][k.hex] = gpg_entry(k, data, rng)
+            if isinstance(new.get("signatures"), dict) and isinstance(new.get("signed"), dict):
+                new["signatures"][att.hex] = gpg_entry(att, canonjson.canon(new["signed"]), rng)
     if trusted_type_flip:
         trusted["signed"]["type"] = "key_mgr"
     if "new_malformed" in fails:
